@@ -157,7 +157,7 @@ theorem makeFiber_succ (dflt : ν) (d : Nat) (l : Nest ν (d + 2)) :
   | nil => rfl
   | cons x xs => rfl
 
-theorem content_succ {κ : Type} (dflt : ν) (d : Nat) (f : Tree κ ν (d + 1)) :
+theorem cv_content_succ {κ : Type} (dflt : ν) (d : Nat) (f : Tree κ ν (d + 1)) :
     content dflt (d + 1) f =
       List.flatMap (fun e => (content dflt d e.2).map (fun pv => (e.1 :: pv.1, pv.2))) f := rfl
 
@@ -228,7 +228,7 @@ theorem fromUncompressed_succ (dflt : ν) (d : Nat) (l : Nest ν (d + 2)) :
 
 theorem content_fromUncompressed_zero (dflt : ν) (l : Nest ν 1) :
     content dflt 1 (fromUncompressed dflt 0 l) = nestContent dflt 1 l := by
-  rw [nestContent_succ, content_succ, fromUncompressed_zero]
+  rw [nestContent_succ, cv_content_succ, fromUncompressed_zero]
   apply items_flatMap
   · intro c x t hx
     simp only [leafKeep] at hx
@@ -243,7 +243,7 @@ theorem content_fromUncompressed_zero (dflt : ν) (l : Nest ν 1) :
     · simp [nestContent, hd]
     · simp [hd] at hx
 
-theorem content_nil {κ : Type} (dflt : ν) (d : Nat) :
+theorem cv_content_nil {κ : Type} (dflt : ν) (d : Nat) :
     content dflt (d + 1) ([] : List (κ × Tree κ ν d)) = [] := rfl
 
 theorem content_fromUncompressed (dflt : ν) : ∀ (d : Nat) (l : Nest ν (d + 1)),
@@ -253,7 +253,7 @@ theorem content_fromUncompressed (dflt : ν) : ∀ (d : Nat) (l : Nest ν (d + 1
   | zero => intro l; exact content_fromUncompressed_zero dflt l
   | succ d ih =>
     intro l
-    rw [nestContent_succ, content_succ, fromUncompressed_succ]
+    rw [nestContent_succ, cv_content_succ, fromUncompressed_succ]
     apply items_flatMap
     · intro c x t hx
       have := ih x
@@ -261,7 +261,7 @@ theorem content_fromUncompressed (dflt : ν) : ∀ (d : Nat) (l : Nest ν (d + 1
       simp only [this]
     · intro c x hx
       have := ih x
-      rw [fromUncompressed_of_none hx, content_nil] at this
+      rw [fromUncompressed_of_none hx, cv_content_nil] at this
       simp only [← this, List.map_nil]
 
 /-! #### canonical form of the result -/
@@ -709,7 +709,7 @@ end Unc
 section Dict
 variable {κ ν : Type}
 
-theorem zip_map_fst_snd {α β : Type} (f : List (α × β)) : (f.map (·.1)).zip (f.map (·.2)) = f := by
+theorem cv_zip_map_fst_snd {α β : Type} (f : List (α × β)) : (f.map (·.1)).zip (f.map (·.2)) = f := by
   induction f with
   | nil => rfl
   | cons e r ih => simp [ih]
@@ -742,7 +742,7 @@ theorem dict2fiber_fiber2dict : ∀ (d : Nat) (t : Tree κ ν d), dict2fiber d (
     intro t
     rw [fiber2dict_succ, dict2fiber_succ,
       mapMOpt_map_some (dict2fiber d) (fun e => fiber2dict d e.2) (fun e => e.2) (asList t) (fun x _ => ih x.2)]
-    simp only [List.length_map, if_true, zip_map_fst_snd]
+    simp only [List.length_map, if_true, cv_zip_map_fst_snd]
 
 section Eq
 variable [LT κ] [DecidableRel (α := κ) (· < ·)] [DecidableEq κ] [DecidableEq ν]
@@ -1057,7 +1057,7 @@ theorem points_succ (dflt : ν) (d : Nat) (t : Tree κ ν (d + 1)) :
   rw [List.map_map, List.map_map]
   rfl
 
-theorem content_eq_nil_of_isEmpty (dflt : ν) : ∀ (d : Nat) (t : Tree κ ν d),
+theorem cv_content_eq_nil_of_isEmpty (dflt : ν) : ∀ (d : Nat) (t : Tree κ ν d),
     isEmpty dflt d t = true → content dflt d t = [] := by
   intro d
   induction d with
@@ -1105,7 +1105,7 @@ theorem isEmpty_of_content_nil (dflt : ν) : ∀ (d : Nat) (t : Tree κ ν d),
 def contrib (dflt : ν) (d : Nat) (e : κ × Tree κ ν d) : List (List κ × ν) :=
   (content dflt d e.2).map (fun pv => (e.1 :: pv.1, pv.2))
 
-theorem content_cons (dflt : ν) (d : Nat) (e : κ × Tree κ ν d) (r : List (κ × Tree κ ν d)) :
+theorem cv_content_cons (dflt : ν) (d : Nat) (e : κ × Tree κ ν d) (r : List (κ × Tree κ ν d)) :
     content dflt (d + 1) (show Tree κ ν (d + 1) from e :: r) =
       contrib dflt d e ++ content dflt (d + 1) (show Tree κ ν (d + 1) from r) := rfl
 
@@ -1135,7 +1135,7 @@ theorem content_not_hdIs (dflt : ν) (d : Nat) (c : κ) : ∀ (r : List (κ × T
   | nil => intro _ pv h; rw [content_nil'] at h; cases h
   | cons x xs ih =>
     intro hne pv h
-    rw [content_cons] at h
+    rw [cv_content_cons] at h
     rcases List.mem_append.1 h with h | h
     · exact contrib_not_hdIs dflt d x c (hne x (List.mem_cons_self ..)) pv h
     · exact ih (fun y hy => hne y (List.mem_cons_of_mem _ hy)) pv h
@@ -1145,7 +1145,7 @@ theorem filter_hdIs_cons (dflt : ν) (d : Nat) (e : κ × Tree κ ν d) (r : Lis
     (content dflt (d + 1) (show Tree κ ν (d + 1) from e :: r)).filter (hdIs e.1) = contrib dflt d e ∧
     (content dflt (d + 1) (show Tree κ ν (d + 1) from e :: r)).filter (fun pv => !hdIs e.1 pv) =
       content dflt (d + 1) (show Tree κ ν (d + 1) from r) := by
-  rw [content_cons, List.filter_append, List.filter_append]
+  rw [cv_content_cons, List.filter_append, List.filter_append]
   have h1 : (contrib dflt d e).filter (hdIs e.1) = contrib dflt d e :=
     List.filter_eq_self.2 (contrib_hdIs dflt d e)
   have h2 : (content dflt (d + 1) (show Tree κ ν (d + 1) from r)).filter (hdIs e.1) = [] :=
@@ -1182,7 +1182,7 @@ variable {κ ν : Type} [DecidableEq ν] [DecidableEq κ] [LT κ] [DecidableRel 
 open StrictTotal
 
 /-- the executable well-formedness check decides `WF` -/
-theorem wfB_iff : ∀ (d : Nat) (t : Tree κ ν d), wfB d t = true ↔ WF d t := by
+theorem cv_wfB_iff : ∀ (d : Nat) (t : Tree κ ν d), wfB d t = true ↔ WF d t := by
   intro d
   induction d with
   | zero => intro t; exact ⟨fun _ => trivial, fun _ => rfl⟩
@@ -1257,7 +1257,7 @@ theorem canonical_unique (dflt : ν) : ∀ (d : Nat) (a b : Tree κ ν d),
         | nil => rfl
         | cons e' r' =>
           obtain ⟨_, hc, _⟩ := headFacts e' r' hwb hnb
-          rw [content_nil', content_cons] at h
+          rw [content_nil', cv_content_cons] at h
           have := List.append_eq_nil_iff.1 h.symm
           exact absurd this.1 hc
       | cons e r iha =>
@@ -1265,7 +1265,7 @@ theorem canonical_unique (dflt : ν) : ∀ (d : Nat) (a b : Tree κ ν d),
         cases b with
         | nil =>
           obtain ⟨_, hc, _⟩ := headFacts e r hwa hna
-          rw [content_nil', content_cons] at h
+          rw [content_nil', cv_content_cons] at h
           have := List.append_eq_nil_iff.1 h
           exact absurd this.1 hc
         | cons e' r' =>
@@ -1274,7 +1274,7 @@ theorem canonical_unique (dflt : ν) : ∀ (d : Nat) (a b : Tree κ ν d),
           -- the first coordinates agree
           have hk : e.1 = e'.1 := by
             have h1 := h
-            rw [content_cons, content_cons] at h1
+            rw [cv_content_cons, cv_content_cons] at h1
             obtain ⟨pv, hpv, hh⟩ := contrib_head dflt d e (content dflt (d + 1) (show Tree κ ν (d + 1) from r)) hc
             obtain ⟨pv', hpv', hh'⟩ := contrib_head dflt d e' (content dflt (d + 1) (show Tree κ ν (d + 1) from r')) hc'
             rw [h1] at hpv
